@@ -490,7 +490,6 @@ func (r *Recomposer) recomp(v any, rv reflect.Value) {
 		}
 		for k := range im {
 			sf := im[k]
-			f := rv.FieldByIndex(sf.Index)
 			var m any
 			var has bool
 			if m, has = vm[k]; !has {
@@ -503,7 +502,7 @@ func (r *Recomposer) recomp(v any, rv reflect.Value) {
 				}
 			}
 			if has && m != nil {
-				r.setValue(m, f, &sf)
+				r.setValue(m, fieldByIndexAlloc(rv, sf.Index), &sf)
 			}
 		}
 	case reflect.Interface:
@@ -590,4 +589,19 @@ func (r *Recomposer) setValue(v any, rv reflect.Value, sf *reflect.StructField) 
 		}
 		r.recomp(v, rv)
 	}
+}
+
+// fieldByIndexAlloc is like reflect.Value.FieldByIndex but allocates embedded
+// struct pointers on the way that are nil.
+func fieldByIndexAlloc(rv reflect.Value, index []int) reflect.Value {
+	for i, x := range index {
+		if 0 < i && rv.Kind() == reflect.Ptr {
+			if rv.IsNil() {
+				rv.Set(reflect.New(rv.Type().Elem()))
+			}
+			rv = rv.Elem()
+		}
+		rv = rv.Field(x)
+	}
+	return rv
 }
